@@ -2,7 +2,7 @@
 //! text in the model runtime on a record set, and compare with the reference evaluator.
 
 use crate::eval::Outcome;
-use crate::findsem::{reference, Undefined};
+use crate::findsem::{reference, reference_mode, RefMode, Undefined};
 use crate::json::J;
 use crate::policy::{run_policy, PolicyError, PolicyRun};
 use crate::rec::FileRecord;
@@ -75,6 +75,7 @@ pub fn validate(e: &Expression, opts: &RunOptions, mk_records: &mut dyn FnMut(i1
                     PolicyError::Eval(ev) => match ev {
                         crate::eval::EvalError::Unbound(_) => "unbound",
                         crate::eval::EvalError::Unmodelled(_) => "model-lacks",
+                        crate::eval::EvalError::Other(s) if s.contains("MODEL-OVERFLOW") || s.contains("model step budget") => "model-lacks",
                         crate::eval::EvalError::Format(_) => "format-error",
                         crate::eval::EvalError::Deadlock(_) => "deadlock",
                         _ => "runtime-error",
@@ -93,10 +94,11 @@ pub fn validate(e: &Expression, opts: &RunOptions, mk_records: &mut dyn FnMut(i1
         }
         // the policy must match the reference for one clock value in [t0, t1], the same for all records
         let mut last_bad = None;
-        for now in t0..=t1 {
+        let modes = RefMode::candidates(e);
+        for (now, mode) in (t0..=t1).flat_map(|n| modes.iter().map(move |m| (n, *m))) {
             let mut bad = None;
             for (i, r) in recs.iter().enumerate() {
-                let want = reference(e, r, now).expect("defined above");
+                let want = reference_mode(e, r, now, mode).expect("defined above");
                 if want != run.outcomes[i] {
                     let kind = if want.truth != run.outcomes[i].truth {
                         "truth"
@@ -124,7 +126,12 @@ pub fn validate(e: &Expression, opts: &RunOptions, mk_records: &mut dyn FnMut(i1
                     let truths = run.outcomes.iter().map(|o| o.truth).collect();
                     return Tv::Agree { records: recs.len(), compiled, run, truths };
                 }
-                Some(b) => last_bad = Some(b),
+                Some(b) => {
+                    // report the disagreement with the default reading
+                    if last_bad.is_none() || mode == RefMode::default() {
+                        last_bad = Some(b);
+                    }
+                }
             }
         }
         if t0 != t1 {
